@@ -25,7 +25,7 @@ try:
     res['existing_tests_pass'] = rc == 0; res['existing_tests'] = sorted(tp)
     if rc: print(out[-3000:])
     run = open(f'{d}/demo/RUN.md').read()
-    m = re.search(r'cp\s+\S*demo/(\S+)\s+\$W/(\S+)', run)
+    m = re.search(r'cp\s+\S*demo/(\S+)\s+(?:\$W/)?(\S+)', run)
     rx = re.search(r'-run\s+[\'"]?([A-Za-z0-9_|^$]+)', run)
     if m and rx:
         pkg = m.group(2).rstrip('/')
